@@ -158,6 +158,8 @@ func solveObligation(c *Ctx, o *Obligation, idx int, opts solveOpts) {
 			{"z3-new", []string{fmt.Sprintf("-T:%d", secs), "smt.random_seed=7"}, z3file},
 			{"z3-new", []string{fmt.Sprintf("-T:%d", secs), "smt.random_seed=13"}, z3file},
 			{"z3-new", []string{fmt.Sprintf("-T:%d", secs), "smt.random_seed=7", "smt.array.extensional=false"}, z3file},
+			{"z3-new", []string{fmt.Sprintf("-T:%d", secs), "smt.random_seed=1", "smt.array.extensional=false"}, z3file},
+			{"z3-new", []string{fmt.Sprintf("-T:%d", secs), "smt.random_seed=3", "smt.array.extensional=false"}, z3file},
 			{"cvc5", []string{fmt.Sprintf("--tlimit=%d", to.Milliseconds()), "--lang=smt2"}, cvcfile},
 		}
 		cfgs = append(cfgs, cfg{"z3-new", []string{fmt.Sprintf("-T:%d", secs), "smt.random_seed=42", "smt.qi.eager_threshold=50"}, z3file},
